@@ -164,13 +164,9 @@ Definition step (c : config) (s : state) (l : label) : result :=
   | LChan ep st =>
       Ok (set_active s (map (fun m => if m_ep m =? ep then {| m_ep := ep; m_st := st |} else m) (active s)))
   | LNodeDown ep st ch =>
-      match find (fun m => m_ep m =? ep) (active s) with
-      | Some m => if m_st m =? st then
-                    (if st =? 1 then match ch with None => Ok s | Some _ => Inadm end else try_expand s ch)
-                  else Inadm
-      | None =>                                                     (* a node already detached from the heap *)
-          if st =? 1 then match ch with None => Ok s | Some _ => Inadm end else try_expand s ch
-      end
+      (* `node` may be an active member or a node already detached from the heap (its endpoint may even be
+         active again with a new channel), so the state the hook read is part of the label *)
+      if st =? 1 then match ch with None => Ok s | Some _ => Inadm end else try_expand s ch
   | LAdjust amount sample w avg ch victim =>
       let t := total s + amount in
       if negb (t =? sample) then Inadm
